@@ -265,7 +265,7 @@ func (c *cliStream[Req, Res]) CloseSend() error {
 	c.l.up.finish(nil)
 	return nil
 }
-func (c *cliStream[Req, Res]) Send(m *Req) error { return c.l.sendUp(any(m).(proto.Message)) }
+func (c *cliStream[Req, Res]) Send(m *Req) error   { return c.l.sendUp(any(m).(proto.Message)) }
 func (c *cliStream[Req, Res]) SendMsg(m any) error { return c.l.sendUp(m.(proto.Message)) }
 func (c *cliStream[Req, Res]) Recv() (*Res, error) {
 	v, err := c.l.down.recv()
@@ -284,7 +284,7 @@ func (c *cliStream[Req, Res]) RecvMsg(m any) error {
 	return nil
 }
 
-func (p *gpipe) isDead() bool   { p.mu.Lock(); defer p.mu.Unlock(); return p.dead }
+func (p *gpipe) isDead() bool     { p.mu.Lock(); defer p.mu.Unlock(); return p.dead }
 func (p *gpipe) deadError() error { p.mu.Lock(); defer p.mu.Unlock(); return p.deadErr }
 
 // ---- network-server side stream ----
@@ -309,8 +309,8 @@ func (s *srvStream[Req, Res]) SendHeader(md metadata.MD) error {
 }
 func (s *srvStream[Req, Res]) SetHeader(md metadata.MD) error { return nil }
 func (s *srvStream[Req, Res]) SetTrailer(md metadata.MD)      {}
-func (s *srvStream[Req, Res]) Send(m *Res) error             { return s.l.sendDown(any(m).(proto.Message)) }
-func (s *srvStream[Req, Res]) SendMsg(m any) error           { return s.l.sendDown(m.(proto.Message)) }
+func (s *srvStream[Req, Res]) Send(m *Res) error              { return s.l.sendDown(any(m).(proto.Message)) }
+func (s *srvStream[Req, Res]) SendMsg(m any) error            { return s.l.sendDown(m.(proto.Message)) }
 func (s *srvStream[Req, Res]) Recv() (*Req, error) {
 	v, err := s.l.up.recv()
 	if err != nil {
